@@ -53,3 +53,11 @@ func ClassOf(err error) string {
 	}
 	return "ref-type-error"
 }
+
+// Global returns the value of a global variable (nil if unset).
+func (in *Interp) Global(name string) Val {
+	if c, ok := in.global.vars[name]; ok {
+		return c.V
+	}
+	return nil
+}
